@@ -43,16 +43,25 @@ func (p *QueryTemplateParams[Opts]) UnmarshalJSON(b []byte) error {
 		OOT      *time.Time `json:"startTime"`
 		Expand   []string   `json:"expand,omitempty"`
 		Sort     string     `json:"sort"`
-		PageSize uint       `json:"pageSize"`
+		PageSize *uint      `json:"pageSize"`
 	}
 	err := json.Unmarshal(b, &x)
 	if err != nil {
 		return err
 	}
-	p.PIT = x.PIT
-	p.OOT = x.OOT
-	p.Expand = x.Expand
-	p.PageSize = x.PageSize
+	// the document may be an overlay (request params over template params): only what it names is set
+	if x.PIT != nil {
+		p.PIT = x.PIT
+	}
+	if x.OOT != nil {
+		p.OOT = x.OOT
+	}
+	if x.Expand != nil {
+		p.Expand = x.Expand
+	}
+	if x.PageSize != nil {
+		p.PageSize = *x.PageSize
+	}
 
 	if x.Sort != "" {
 		parts := strings.SplitN(x.Sort, ":", 2)
